@@ -195,6 +195,7 @@ macro_rules! for_config17 {
             "8x3" => $m!(BUintD8, BIntD8, u8, 3),
             "8x5" => $m!(BUintD8, BIntD8, u8, 5),
             "8x17" => $m!(BUintD8, BIntD8, u8, 17),
+            "8x64" => $m!(BUintD8, BIntD8, u8, 64),
             "16x1" => $m!(BUintD16, BIntD16, u16, 1),
             "16x3" => $m!(BUintD16, BIntD16, u16, 3),
             "16x4" => $m!(BUintD16, BIntD16, u16, 4),
